@@ -121,6 +121,14 @@ def generate(rng, tier):
         x["kind"] = rng.choice(["gauss", "gauss", "two", "ramp"])
         ops.insert(rng.randrange(len(ops) + 1), {"op": "q", "q": q, "x": x, "custom": None, "alias": False,
                                                  "rep": rng.choice([130, 260, 300, 520, 700])})
+    if rng.random() < (0.05 if tier == "quick" else 0.1):
+        # SCALE: one long input (block-wise paths that only engage beyond some length, and their remainder handling)
+        for _ in range(rng.choice([1, 2])):
+            x = gen_input(rng)
+            x["n"] = rng.choice([65537, 100003, 262145, 300000, 536633, 1000003])
+            x["kind"] = rng.choice(["gauss", "gauss", "two", "ramp"])
+            op = {"op": "q", "q": rng.randrange(nq), "x": x, "custom": rng.choice([None, None, 2.5]), "alias": False}
+            ops.insert(rng.randrange(len(ops) + 1), op)
     return {"seams": {"entropy_salt": rng.randrange(1 << 20), "scratch": "c09"}, "quants": quants, "ops": ops}
 
 
